@@ -41,7 +41,7 @@ INFO = {
  'C16-b': ('from_diff: empty nested diff dropped (`{"a":1}` -> `{"a":{}}` lost)', 'after'),
  'C17-a': ('`JSONCONS_MEMBER_NAME_COUNT_LAST`: `<` became `<=` (one optional member counted as mandatory in the streamed object size)', 'after'),
  'C17-b': ('encode_traits for size-less sequences: length-less `begin_array` (MessagePack route fails)', 'after'),
- 'C18-a': ('csv_parser `end_quoted_string_value` (m_columns): `infer_types_` passed for quoted fields', 'after'),
+ 'C18-a': ('csv_parser state `between_values`: `case \'\\r\'` dropped (a record ending in CR/CRLF after a quoted field is rejected)', 'after'),
  'C18-b': ('TOON tabular rows: `encode_primitive(..., \',\', ...)` instead of the delimiter in force', 'after'),
  'C19-a': ('basic_json assignment: `construct<null_storage>()` after `destroy()` removed', 'before'),
  'C19-b': ('`~operation_unwinder`: rolls back only when `state == abort` (not after an exception)', 'after'),
